@@ -154,6 +154,10 @@ def run(rep):
                 o2, obj2, _ = call(cls.parse_exact_size, bytes(co[1]))
                 c['in_set'] = o2 == 'ok' and digest(project(obj2)) == digest(c['proj'])
         canon[i + 1] = c
+    from .. import text_trace
+    text_trace.install()
+    text_trace.LIMIT[0] = 60000 if thorough else 25000
+    del text_trace.EVENTS[:]
     for sp in spellings:
         c = canon[sp['id']]
         data = bytes(sp['text'])
@@ -187,6 +191,25 @@ def run(rep):
                 'trailing separator, order, quoting, unknown directives, OWS around header values - only where Allowed(type) cites the '
                 'grammar; each spelling is parsed by the real class and compared with the canonical spelling. Distinct by (type, bytes).'
                 % (len(cases), 4 if thorough else 3))
+    # the same parses seen from inside: every call of the text list engine, validated against its as-coded model; plus the
+    # corpus inputs of every text class (SSH name-lists, CSP sources, SPF terms ... item classes and fallbacks included)
+    lib = corpus.by_class()
+    for cls in sorted(lib, key=lambda c: c.__module__ + c.__qualname__):
+        if isinstance(cls, type) and cls.__module__.split('.')[1] in ('httpx', 'dnsrec', 'ssh', 'common'):
+            for d in lib[cls][:6]:
+                call(cls.parse_immutable, d)
+    text_trace.uninstall()
+    tev = list(text_trace.EVENTS)
+    del text_trace.EVENTS[:]
+    rep.extra['list_engine_calls_validated'] = len(tev)
+    rep.extra['list_engine_calls_with_plain_items'] = sum(1 for e in tev if e['plain'])
+    rep.evaluations += len(tev)
+    ttraces = [tev[i:i + 5000] for i in range(0, len(tev), 5000)]
+    for tup, ti, ei, _ in judge.run(rep, 'Trace_ParserText', list(enumerate(ttraces)), 'listengine', max_lines=30000):
+        e = tev[ti * 5000 + ei]
+        params = 'seps=%s,spaces=%s,skip_empty=%s,max_item_num=%s,plain=%s' % (bytes(e['seps']).decode(), bytes(e['spaces']).decode(), e['skip'], e['maxitems'], e['plain'])
+        rep.violation('ParserText.parse_string_array|%s|%s' % (tup[1], params),
+                      'the text list engine (called while a real class parses) differs from its as-coded model on %r (%s)' % (bytes(e['text'][:80]), params), e)
     rep.sample(events[0])
     rep.sample(events[len(events) // 2])
     slim = [{k: e[k] for k in ('out', 'canon_out', 'compose_in_set', 'same')} for e in events]
@@ -202,7 +225,7 @@ def run(rep):
         if clause in ('canonical-spelling-rejected', 'composed-spelling-parses-differently'):
             path = 'value%d' % e['id']
         rep.violation('%s|%s|%s' % (e['type'], clause, path), '%s: %s after %s (%r)' % (e['type'], clause, path, e['text'][:80]), e)
-    rep.assumptions += ['Allowed(type) in TextField.tla is my reading of the RFC grammars (DESIGN.md Appendix D); NEL (JSON) is not generated',
+    rep.assumptions += ['Allowed(type) in TextField.tla is my reading of the RFC grammars (DESIGN.md Appendix D); NEL is generated as JSON object spellings',
                         'for the unknown-directive action the comparison ignores containers that only hold the unknown directive']
 
 
